@@ -165,7 +165,8 @@ def make_items(chk: Check, nops: list, npool: int, thorough: bool, hists: list, 
                                                 ("r", ci, vi, 0)]]})
             items.append({"id": f"eq{ci}a", "programs": [[("w", ci, 0, 0), ("w", ci, 1, 0), ("w", ci, 0, 0)]]})
         # a derived entity class and its base, in both creation orders; the same-named twins
-        for a, b in ((npool - 4, npool - 3), (npool - 3, npool - 4), (npool - 2, npool - 1), (npool - 1, npool - 2)):
+        for a, b in ((npool - 4, npool - 3), (npool - 3, npool - 4), (npool - 2, npool - 1), (npool - 1, npool - 2),
+                     (npool - 6, npool - 5), (npool - 5, npool - 6)):
             items.append({"id": f"inh{a}_{b}", "programs": [[("w", a, 0, 0), ("w", b, 0, 0), ("r", a, 1, 0), ("r", b, 1, 0),
                                                              ("w", b, 1, 0), ("w", a, 1, 0)]]})
         return items
@@ -248,7 +249,7 @@ def make_items(chk: Check, nops: list, npool: int, thorough: bool, hists: list, 
     # (d+) a derived entity class and its base, in both creation orders, sequentially and from cold caches
     # with a swept preemption
     bi, di = npool - 4, npool - 3
-    for a, b in ((bi, di), (di, bi)):
+    for a, b in ((bi, di), (di, bi), (npool - 6, npool - 5), (npool - 5, npool - 6)):
         items.append({"id": f"inh{a}_{b}", "programs": [[("w", a, 0, 0), ("w", b, 0, 0), ("r", a, 1, 0), ("r", b, 1, 0),
                                                          ("w", b, 1, 0), ("w", a, 1, 0)]]})
         for k in range(1, 400, 9 if not thorough else 2):
